@@ -89,7 +89,11 @@ func genesisView(g *types.GenesisState) map[string]string {
 		a = append(a, fmt.Sprintf("%q", x.Attester))
 	}
 	for _, x := range g.PerMessageBurnLimitList {
-		l = append(l, fmt.Sprintf("%q=%s", x.Denom, x.Amount.String()))
+		amt := "0" // an entry without an amount stands for the zero amount
+		if !x.Amount.IsNil() {
+			amt = x.Amount.String()
+		}
+		l = append(l, fmt.Sprintf("%q=%s", x.Denom, amt))
 	}
 	for _, x := range g.TokenPairList {
 		p = append(p, fmt.Sprintf("%d/%x=%q", x.RemoteDomain, x.RemoteToken, x.LocalToken))
@@ -458,8 +462,15 @@ func RunC17Genesis(t *testing.T) {
 	st := newStats("C17")
 	st.ID = "C17-genesis"
 	defer st.Write()
+	strip := false
 	run := func(g *types.GenesisState, extra string) *Viol {
 		raw := json.RawMessage(chain.Codec().MustMarshalJSON(g))
+		if strip {
+			// burn-limit entries of amount 0 written without their amount field
+			if r2 := sim.StripLimitAmounts(raw, func(_, a string) bool { return a == "0" }); string(r2) != string(raw) {
+				raw, extra = r2, extra+"+limit-without-amount"
+			}
+		}
 		v, cls := c17genesisCheck(raw)
 		if v != nil {
 			saveFail("C17", "c17-genesis", json.RawMessage(raw), v)
@@ -477,13 +488,35 @@ func RunC17Genesis(t *testing.T) {
 			t.Fatalf("VIOLATION %s", v)
 		}
 	}
+	// a limit entry without an amount in front of everything else the file says
+	{
+		g := types.DefaultGenesis()
+		g.Owner, g.AttesterManager, g.Pauser, g.TokenController = sim.Acct(0), sim.Acct(1), sim.Acct(2), sim.Acct(3)
+		g.PerMessageBurnLimitList = []types.PerMessageBurnLimit{{Denom: "uusdc", Amount: sim.Int(big.NewInt(0))}, {Denom: "ueurc", Amount: sim.Int(big.NewInt(7))}}
+		g.NextAvailableNonce = &types.Nonce{Nonce: 77}
+		g.SignatureThreshold = &types.SignatureThreshold{Amount: 2}
+		g.MaxMessageBodySize = &types.MaxMessageBodySize{Amount: 999}
+		g.AttesterList = []types.Attester{{Attester: attest.K(0).Spelling(0)}, {Attester: attest.K(1).Spelling(0)}}
+		g.UsedNoncesList = []types.Nonce{{SourceDomain: 1, Nonce: 5}}
+		g.TokenPairList = []types.TokenPair{{RemoteDomain: 1, RemoteToken: sim.Pad32([]byte{1}), LocalToken: "uusdc"}}
+		g.TokenMessengerList = []types.RemoteTokenMessenger{{DomainId: 1, Address: sim.Pad32([]byte{2})}}
+		strip = true
+		v := run(g, "prelude")
+		strip = false
+		if v != nil {
+			t.Fatalf("VIOLATION %s", v)
+		}
+	}
 	// duplicate detection must not depend on where in a longer list the two colliding entries sit: lists of
 	// 13..60 entries in many orders, one key twice, straight through GenesisState.Validate
 	if v := c17dupSweep(st); v != nil {
 		t.Fatalf("VIOLATION %s", v)
 	}
 	rapid.Check(t, func(rt *rapid.T) {
-		if v := run(genGenesisState(rt), "random"); v != nil {
+		g := genGenesisState(rt)
+		strip = rapid.IntRange(0, 4).Draw(rt, "limit-without-amount") == 0
+		defer func() { strip = false }()
+		if v := run(g, "random"); v != nil {
 			rt.Fatalf("VIOLATION %s", v)
 		}
 	})
